@@ -852,19 +852,19 @@ def r06_8(prog, rep):
 
 def run(prog, rep, tier, snap):
     rep.rule("R06.1", "write-close-rename protocol in every function that renames into the spool", 12)
-    r06_1(prog, rep)
+    rep.call(r06_1, prog, rep)
     rep.rule("R06.2", "who may create/truncate/unlink/rename files of the spool", 10)
-    n = r06_2(prog, rep)
+    n = rep.call(r06_2, prog, rep)
     rep.rule("R06.3", "write errors on the checkpoint path are observable before the rename", 2)
-    r06_3(prog, rep)
+    rep.call(r06_3, prog, rep)
     rep.rule("R06.4", "dirty marking on success replies, retirement and shutdown", 5)
-    r06_4(prog, rep)
+    rep.call(r06_4, prog, rep)
     rep.rule("R06.5", "reload filter agrees with the rename target; owner keyword read back", 5)
-    r06_5(prog, rep)
+    rep.call(r06_5, prog, rep)
     rep.rule("R06.7", "a user whose queue became empty still gets his file rewritten (per-user and all-users checkpoint)", 2)
-    r06_7(prog, rep)
+    rep.call(r06_7, prog, rep)
     rep.rule("R06.8", "values read from the per-user slot array are not used after the index has moved on", 2)
-    r06_8(prog, rep)
+    rep.call(r06_8, prog, rep)
     from ..rules import valist
     rep.rule("R06.6", "the buffered writer never formats from a consumed va_list (records larger than the write buffer)", 1)
     valist.r_valist(prog, rep, "R06.6", only=("fdprintf",))
